@@ -174,6 +174,25 @@ Ltac fwd_in HI :=
            | _ => pose proof (I1 _ HI _ _ _ _ H H0)
            end
          end.
+Lemma unsent_held : forall p w, unsentP p w -> heldw p = Some w.
+Proof. destruct p; simpl; try tauto; try congruence. destruct k; simpl; try tauto; congruence. Qed.
+Lemma sent_held : forall p w, sentP p w -> heldw p = Some w.
+Proof. destruct p; simpl; try tauto; try congruence. destruct k; simpl; try tauto; congruence. Qed.
+Lemma holds_held : forall p c w, holdsP p c w -> heldw p = Some w.
+Proof. destruct p; simpl; try tauto; intros ? ? [? ?]; congruence. Qed.
+Ltac fwd_held :=
+  repeat match goal with
+         | H : unsentP ?p ?w |- _ =>
+           lazymatch goal with _ : heldw p = Some w |- _ => fail | _ => pose proof (unsent_held _ _ H) end
+         | H : sentP ?p ?w |- _ =>
+           lazymatch goal with _ : heldw p = Some w |- _ => fail | _ => pose proof (sent_held _ _ H) end
+         | H : holdsP ?p ?c ?w |- _ =>
+           lazymatch goal with _ : heldw p = Some w |- _ => fail | _ => pose proof (holds_held _ _ _ H) end
+         end.
+Ltac fwd_same :=
+  repeat match goal with
+         | H1 : ?a = Some ?x, H2 : ?a = Some ?y |- _ => rewrite H1 in H2; inversion H2; subst; clear H2
+         end.
 Ltac fwd_seen :=
   repeat match goal with
          | H : In (?w, ?i) (seen ?s) |- _ =>
@@ -182,10 +201,56 @@ Ltac fwd_seen :=
            | _ => assert (In w (map fst (seen s))) by (change w with (fst (w, i)); apply in_map; exact H)
            end
          end.
-Ltac split_or := repeat match goal with H : _ \/ _ |- _ => destruct H end.
-Ltac fin := simpl in *; try (intro; split_or); split_or; inj_all; fwd_seen; simpl in *; eauto; try congruence; try tauto; try lia.
-Ltac bf HI := try fwd_actor HI; dinv HI; constructor; simp; intros; eqb_cases; inj_all; simpl in *; fwd_in HI;
-  repeat (match goal with Hpc : pc _ ?i = _, H : context [pc _ ?i] |- _ => rewrite Hpc in H end); fin.
+Ltac split_or := repeat match goal with H : _ \/ _ |- _ => destruct H | H : _ /\ _ |- _ => destruct H end.
+Ltac fwd_lookup :=
+  repeat match goal with
+         | H : lookup ?w ?l = None |- _ =>
+           lazymatch goal with _ : (forall i, In (w, i) l -> False) |- _ => fail
+           | _ => assert (forall i, In (w, i) l -> False) by (apply lookup_None; exact H) end
+         | H : lookup ?w ?l = Some ?i |- _ =>
+           lazymatch goal with _ : In (w, i) l |- _ => fail
+           | _ => pose proof (lookup_In _ _ _ H) end
+         end.
+Ltac fin := simpl in *; unfold not in *; try (intro; split_or); split_or; inj_all; subst; fwd_same; fwd_seen; fwd_held; fwd_lookup; simpl in *; subst; eauto; try congruence; try tauto; try lia.
+Ltac fwd_lt HI :=
+  repeat match goal with
+         | H : In (?w, ?i) (seen ?s) |- _ =>
+           lazymatch goal with _ : w < next_w s |- _ => fail | _ => pose proof (I3 _ HI _ _ H) end
+         | H : heldw (pc ?s ?j) = Some ?w |- _ =>
+           lazymatch goal with _ : w < next_w s |- _ => fail | _ => pose proof (I5 _ HI _ _ H) end
+         end.
+Ltac bf HI := try fwd_actor HI; dinv HI; constructor; simp; unfold not in *; intros; eqb_cases; inj_all; simpl in *;
+  fwd_in HI;
+  repeat (match goal with Hpc : pc _ ?i = _, H : context [pc _ ?i] |- _ => rewrite Hpc in H end);
+  simpl in *; split_or; inj_all; fwd_in HI;
+  repeat (match goal with Hpc : pc _ ?i = _, H : context [pc _ ?i] |- _ => rewrite Hpc in H end);
+  simpl in *; split_or; fwd_same; fwd_seen; fwd_held; fwd_lookup; fwd_lt HI; fin.
+
+Lemma removed_subs : forall s x w, c_subs (removed_conn s x w) = remove_w w (c_subs x).
+Proof. intros. unfold removed_conn. simpl. destruct (is_nil _); [destruct (idle s)|]; reflexivity. Qed.
+
+Lemma no_entry_after_remove : forall s i c w k x, Inv s -> pc s i = SRemove c w k -> cns s c = Some x ->
+  forall c' x' i', cns (set_cn s c (removed_conn s x w)) c' = Some x' -> ~ In (w, i') (c_subs x').
+Proof.
+  intros s i c w k x HI Hpc Ex c' x' i' H Hin. simp. unfold upd in H.
+  destruct (Nat.eqb_spec c' c).
+  - inversion H; subst. rewrite removed_subs in Hin. apply remove_w_In in Hin. tauto.
+  - pose proof (I1 _ HI _ _ _ _ H Hin) as Hh. pose proof (holds_held _ _ _ Hh) as Hw.
+    assert (i' = i) by (eapply (I10 _ HI); eauto; rewrite Hpc; reflexivity). subst.
+    rewrite Hpc in Hh. simpl in Hh. destruct Hh; congruence.
+Qed.
+
+Lemma inv_release : forall s i c w k p, Inv s -> pc s i = SRemove c w k ->
+  (forall c' x i', cns s c' = Some x -> ~ In (w, i') (c_subs x)) ->
+  heldw p = None -> (cancelP p -> ctxc s i = true) -> Inv (set_pc s i p).
+Proof.
+  intros s i c w k p HI Hpc Hno Hp Hc.
+  assert (Hu : forall w, ~ unsentP p w) by (intros w0; destruct p; simpl in *; try tauto; try discriminate; destruct k0; tauto).
+  assert (Hs : forall w, ~ sentP p w) by (intros w0; destruct p; simpl in *; try tauto; try discriminate; destruct k0; tauto).
+  assert (Hh : forall c w, ~ holdsP p c w) by (intros c0 w0; destruct p; simpl in *; try tauto; discriminate).
+  bf HI; try (exfalso; eapply Hno; eauto; fail); try (exfalso; eapply Hu; eauto; fail);
+    try (exfalso; eapply Hs; eauto; fail); try (exfalso; eapply Hh; eauto; fail).
+Qed.
 
 Lemma inv_step : forall s a s' e, Inv s -> owner_free s -> step s a = Some (s', e) -> Inv s'.
 Proof.
@@ -197,12 +262,24 @@ Proof.
   - (* ADialCtx *) inv_step H; free_pc.
   - (* APublish *) inv_step H; free_pc.
   - (* ABook *) inv_step H; free_pc.
-  - (* AInsert *) admit.
-  - (* ASend *) inv_step H; bf HI. Show.
-  - (* ASendCtx *) admit.
-  - (* AUnsub *) inv_step H; bf HI. Show.
+  - (* AInsert *) inv_step H; bf HI.
+    + constructor; eauto. intro Hm. apply in_map_iff in Hm. destruct Hm as [[w' j] [E Hm]]. simpl in E; subst. eauto.
+    + apply in_map_iff in H0. destruct H0 as [[w' j] [E Hm]]. simpl in E; subst.
+      pose proof (I3 _ HI _ _ Hm). lia.
+  - (* ASend *) inv_step H; bf HI.
+  - (* ASendCtx *) inv_step H; unfold c_kill in *; bf HI;
+      (match goal with Hc : cns s _ = Some ?x, Hcl : c_closed ?x = true |- _ =>
+         destruct (I8 _ HI _ _ Hc Hcl); split; [rewrite Heqo0; discriminate | auto] end).
+  - (* AUnsub *) inv_step H; bf HI.
   - (* AUnsubSend *) inv_step H; bf HI.
-  - (* ARemove *) admit.
+  - (* ARemove *) inv_step H;
+      (pose proof (inv_remove_sub _ _ _ _ _ HI Heqo) as HI1;
+       destruct (remove_sub_frame _ _ _ _ _ Heqo) as (Ep & Ec & Es & Ew & _);
+       destruct (remove_sub_cases _ _ _ _ _ Heqo) as [x [Ex [-> _]]];
+       eapply inv_release; eauto;
+       [eapply no_entry_after_remove; eauto
+       |destruct k; reflexivity
+       |destruct k; simpl; try tauto; intros _; change (ctxc s i = true); apply (I7 _ HI i); rewrite Heqs0; simpl; auto]).
   - (* AClose *) inv_step H. pose proof (inv_shut _ _ _ _ _ HI Heqp) as HI1.
     destruct (shut_frame _ _ _ _ _ Heqp) as (Ep & Ec & Es & Ew & _).
     match goal with Hpc : pc s ?i = SClose _ _ |- _ =>
@@ -221,7 +298,10 @@ Proof.
     match goal with Hd : dials s ?d = Some ?x, Hph : d_phase ?x = _ |- _ =>
       pose proof (HO _ _ Hd) as Hp; rewrite Hph in Hp; specialize (Hp ltac:(discriminate)) end.
     eapply (inv_pc_free_gen s); eauto; simp; try lia; try rewrite Hp; simpl; auto; try discriminate; tauto.
-  - (* UpAck *) admit.
+  - (* UpAck *) inv_step H.
+    match goal with Hd : dials s ?d = Some ?x, Hph : d_phase ?x = _ |- _ =>
+      pose proof (HO _ _ Hd) as Hp; rewrite Hph in Hp; specialize (Hp ltac:(discriminate)) end.
+    bf HI; try (constructor; fail).
   - (* UpInitFail *) inv_step H.
     match goal with Hd : dials s ?d = Some ?x, Hph : d_phase ?x = _ |- _ =>
       pose proof (HO _ _ Hd) as Hp; rewrite Hph in Hp; specialize (Hp ltac:(discriminate)) end.
